@@ -216,7 +216,7 @@ impl Default for RunCfg {
             tick_sample: 1,
             tick_query: 0,
             cap_slack: 8,
-            query_cap: 200_000,
+            query_cap: 3_000_000,
             fail_uniform_at: None,
             fail_goal_at: None,
         }
